@@ -437,6 +437,15 @@ class SymFloat:
                 raise ZeroDivisionError('float division by zero')
         elif den == 0:
             raise ZeroDivisionError('float division by zero')
+        if not self.ieee:
+            from . import floatmodel
+            t = self._co(o)
+            if t is None:
+                return NotImplemented
+            a, b = (t, self.term) if swap else (self.term, t)
+            if not z3.is_rational_value(z3.simplify(b)):
+                # symbolic denominator: keep the query linear (uninterpreted quotient with its order facts)
+                return SymFloat(floatmodel.rnd(floatmodel.divf(a, b)))
         return self._bin(o, lambda a, b: z3.fpDiv(RNE, a, b), lambda a, b: a / b, swap)
 
     def __truediv__(self, o):
